@@ -182,7 +182,28 @@ func (s *service) WaitForVersionChange(ctx context.Context, key, ver string) err
 		ws.waiters++
 		s.lock.Unlock()
 
+		// a record with an expiration disappears by itself: wake up when that time has come
+		var expired <-chan time.Time
+		if r.ExpiresAt != nil {
+			tmr := time.NewTimer(r.ExpiresAt.Sub(time.Now()) + time.Nanosecond)
+			defer tmr.Stop()
+			expired = tmr.C
+		}
+
 		select {
+		case <-expired:
+			s.lock.Lock()
+			if r1, ok := s.recs[key]; !ok || !s.dropIfExpired(r1) {
+				// not expired (yet, or the record was replaced): leave the group and check again
+				if ws1, ok := s.verChange[key]; ok && ws.done == ws1.done {
+					ws.waiters--
+					if ws.waiters == 0 {
+						close(ws.done)
+						delete(s.verChange, key)
+					}
+				}
+			}
+			s.lock.Unlock()
 		case <-ctx.Done():
 			s.lock.Lock()
 			defer s.lock.Unlock()
